@@ -512,6 +512,7 @@ pub fn run(prop: &str, tier: &str, config: &str) -> Report {
     }
     cfg.stateright = 0;
     crate::for_each_kind!(run_kind, &mut rep, &cfg);
+    crate::chlive::run_into(&mut rep, tier);
     let st = rep.extra.get("states").and_then(|v| v.as_u64()).unwrap_or(0);
     let tr = rep.extra.get("transitions").and_then(|v| v.as_u64()).unwrap_or(0);
     rep.evaluations = tr;
